@@ -1,8 +1,9 @@
 #!/usr/bin/env python3
 """Mechanical mutation campaign: how sensitive are the monitors to small slips in the anchored code?
 
-  mutants.py gen  [--seed N] [--per-file K]      write selftest/mutants/plan.jsonl (sampled mutants)
-  mutants.py run  [--lanes 4] [--limit N]        judge the planned mutants, append to selftest/mutants/results.jsonl
+  mutants.py gen  [--seed N] [--per-file K]      write selftest/mutants/<round>/plan.jsonl (sampled mutants)
+  mutants.py run  [--lanes 4] [--limit N]        judge the planned mutants, append to selftest/mutants/<round>/results.jsonl
+  (round = $MUTANTS_ROUND, default r1; a later round never re-plans a mutant of an earlier one)
   mutants.py report                              summary table (markdown) on stdout
 
 A mutant is ONE token-level edit of a library source line (comparison off by one, +-1 dropped,
@@ -33,8 +34,9 @@ import time
 VERIF = os.path.dirname(os.path.dirname(os.path.abspath(__file__)))
 REPO = "/repo"
 OUT = os.path.join(VERIF, "selftest", "mutants")
-PLAN = os.path.join(OUT, "plan.jsonl")
-RESULTS = os.path.join(OUT, "results.jsonl")
+ROUND = os.environ.get("MUTANTS_ROUND", "r1")
+PLAN = os.path.join(OUT, ROUND, "plan.jsonl")
+RESULTS = os.path.join(OUT, ROUND, "results.jsonl")
 
 # source file -> properties whose monitors should notice a slip there (most specific first)
 FILES = {
@@ -126,7 +128,13 @@ def source_lines(path):
 
 def gen(seed, per_file):
     rnd = random.Random(seed)
-    os.makedirs(OUT, exist_ok=True)
+    os.makedirs(os.path.dirname(PLAN), exist_ok=True)
+    # never plan a mutant that an earlier round already judged
+    seen = set()
+    for d in sorted(os.listdir(OUT)):
+        pj = os.path.join(OUT, d, "plan.jsonl")
+        if os.path.isfile(pj) and d != ROUND:
+            seen |= {(m["file"], m["line"], m["op"], m["occ"]) for m in map(json.loads, open(pj))}
     plan = []
     for f, props in FILES.items():
         path = os.path.join(REPO, f)
@@ -147,13 +155,15 @@ def gen(seed, per_file):
                     # generics / lifetimes / arrows are not comparisons
                     if name in ("lt->le", "gt->ge") and re.search(r"(->|<[A-Z'&]|::<|Vec<|Option<|impl |dyn |for<)", code):
                         continue
+                    if (f, lineno + 1, name, k) in seen:
+                        continue
                     muts.append(dict(file=f, line=lineno + 1, op=name, occ=k, props=props, before=code.strip()[:160]))
         rnd.shuffle(muts)
         plan.extend(muts[:per_file])
         print(f"{f}: {len(muts)} candidate mutants, {min(len(muts), per_file)} sampled")
     rnd.shuffle(plan)
     for i, m in enumerate(plan):
-        m["id"] = f"M{i:04d}"
+        m["id"] = f"M{i:04d}" if ROUND == "r1" else f"{ROUND.upper()}M{i:04d}"
     with open(PLAN, "w") as fh:
         for m in plan:
             fh.write(json.dumps(m) + "\n")
